@@ -27,7 +27,7 @@ def valid_extra(x, large):
 
 class C17(Check):
     pid = "C17"
-    rule = ("start_file_aligned for alignments {0,1, powers of two, primes, non-powers, 65535, random} (thorough: all 0..65535) "
+    rule = ("start_file_aligned for alignments {0,1, powers of two, primes, non-powers, 65535, random} (thorough: all 0..4096 + 6000 random up to 65535) "
             "at preceding offsets hitting every residue of small alignments, with/without large_file, after 0..3 earlier "
             "entries; extra-data programs with record lists over reserved/unreserved ids, sizes 0..max, truncated tails, "
             "local-only / central-only / shared variants, lengths at the 16-bit limit.  Compared: return values and bytes "
@@ -42,7 +42,8 @@ class C17(Check):
         progs, metas = [], []
         aligns = [0, 1, 2, 3, 4, 5, 6, 7, 8, 12, 16, 24, 31, 32, 33, 64, 100, 127, 128, 255, 256, 257, 512, 1000, 1024, 4096, 4097, 32768, 40000, 65521, 65535]
         if self.tier == "thorough":
-            aligns = list(range(0, 65536))
+            # every alignment up to 4096, then a dense random sample of the rest (each archive carries up to 64 KiB of padding)
+            aligns = list(range(0, 4097)) + [r.randrange(4097, 65536) for _ in range(6000)] + [32768, 65521, 65535]
         else:
             aligns += [r.randrange(2, 65536) for _ in range(30)] + [r.randrange(2, 600) for _ in range(60)]
         for al in aligns:
